@@ -231,7 +231,7 @@ impl EmitMethods for MsgVariant<'_> {
                     (*self.app)
                         .app_mut()
                         .wasm_sudo(self.contract_addr.clone(), &msg)
-                        .map_err(|err| err.downcast().unwrap())
+                        .map_err( #sylvia ::multitest::downcast_error)
                 }
             },
             MsgType::Migrate => quote! {
